@@ -114,6 +114,14 @@ fourth batch (the lines the repairs of 2026-09-29 introduced; uc_neighbor_offset
                                           `inputs={…}`: the fragment is translated for GIVEN values of these locals (the statements
                                           before it are not read)
 
+  item 8 / wrap lines of the search: `xs[k]` with a natural k (`xs[k]?`, `none` = IndexError); `np.allclose(a, b, rtol=…, atol=…)` on
+                                          lists of 3-vectors (`Py.allclose?`; a missing keyword takes numpy's default 1e-5 / 1e-8);
+                                          `np.linalg.inv` of a 3x3 array (adjugate / determinant; singular matrices not modelled);
+                                          `a.dot(b)` (row vector · matrix, matrix · vector); `np.floor` (`Py.floor`, an Int);
+                                          Int → Rat coercion; `keep_last=N` keeps N more statements before a fragment with `inputs`;
+                                          when a SKIPPED statement assigns `obj.attr`, everything known about `obj` (its
+                                          attributes, `len(obj)`) becomes opaque
+
 sequencing slices (`trace=True`, used for mofun_cli)
   The body must consist of simple statements (expression statements, assignments, assert, del) and `if`s over them; no
   loops, no return.  The translation is `List String`: the simple statements that are executed, in program order, as
@@ -368,6 +376,8 @@ class Fn:
             return V("((%s : Nat) : Rat)" % v.term, NUM, v.binds, v.refs)
         if v.ty == NAT and ty == INT:
             return V("((%s : Nat) : Int)" % v.term, INT, v.binds, v.refs)
+        if v.ty == INT and ty == NUM:
+            return V("((%s : Int) : Rat)" % v.term, NUM, v.binds, v.refs)
         if v.ty == STR and ty == VAL:
             return V("(Py.Val.str %s)" % v.term, VAL, v.binds, v.refs)
         if v.ty == "emptydict" and isinstance(ty, tuple) and ty[0] == "dict":
@@ -410,6 +420,8 @@ class Fn:
                 t = NUM
             elif {u, t} <= {NAT, INT}:
                 t = INT
+            elif {u, t} <= {NAT, INT, NUM}:
+                t = NUM
             elif {u, t} == {STR, VAL}:
                 t = VAL
             elif isinstance(u, tuple) and isinstance(t, tuple) and u[0] in ("list", "set") and t[0] in ("list", "set"):
@@ -628,7 +640,11 @@ class Fn:
                 acc = V("(%s %s %s)" % (acc.term, op, v.term), BOOL, acc.binds, acc.refs | v.refs)
             else:  # short circuit: the right operand is evaluated (and may raise) only when needed
                 a, b = (self.close(v), "(some %s)" % unit) if op == "&&" else ("(some %s)" % unit, self.close(v))
-                r = self.rebind("(if %s then %s else %s)" % (acc.term, a, b), BOOL, acc.refs | v.refs)
+                inner = set(v.refs)
+                for _, _, r_ in v.binds:
+                    inner |= r_
+                inner -= {b_[0] for b_ in v.binds}
+                r = self.rebind("(if %s then %s else %s)" % (acc.term, a, b), BOOL, acc.refs | inner)
                 acc = V(r.term, BOOL, acc.binds + r.binds, r.refs)
         return acc
 
@@ -644,7 +660,11 @@ class Fn:
         test = c.prop or c.term
         if not a.binds and not b.binds:
             return V("(if %s then %s else %s)" % (test, a.term, b.term), ty, c.binds, c.refs | a.refs | b.refs)
-        r = self.rebind("(if %s then %s else %s)" % (test, self.close(a), self.close(b)), ty, c.refs | a.refs | b.refs)
+        inner = set(a.refs) | set(b.refs)
+        for _, _, r_ in a.binds + b.binds:
+            inner |= r_
+        inner -= {b_[0] for b_ in a.binds + b.binds}
+        r = self.rebind("(if %s then %s else %s)" % (test, self.close(a), self.close(b)), ty, c.refs | inner)
         return V(r.term, ty, c.binds + r.binds, r.refs)
 
     def ex_Compare(self, node, env, want):
@@ -839,6 +859,14 @@ class Fn:
                 self.fail(node, "slice %s" % ast.unparse(node))
             hi = self.const_index(sl.upper)
             return V("(Py.strSlice %s %d %d)" % (base.term, lo, hi), STR, base.binds, base.refs)
+        if not isinstance(sl, ast.Constant) and isinstance(base.ty, tuple) and base.ty[0] == "list" and base.items is None:
+            k = self.ex(sl, env)
+            if k.ty == OPAQUE:
+                return V.opaque()
+            if k.ty != NAT:
+                self.fail(node, "list index of type %s (only naturals: a negative index counts from the end)" % (k.ty,))
+            r = self.rebind("(%s[%s]?)" % (base.term, k.term), base.ty[1], base.refs | k.refs)
+            return V(r.term, base.ty[1], base.binds + k.binds + r.binds, r.refs)
         i = self.const_index(sl)
         if isinstance(base.ty, tuple) and base.ty[0] == "tuple" and base.items is None:
             n = len(base.ty[1])
@@ -1006,6 +1034,67 @@ class Fn:
                 self.fail(node, "np.delete(%s, %s, axis=0)" % (a.ty, idx.ty))
             binds, refs = _join(a, idx)
             return V("(Py.npDelete %s %s)" % (a.term, idx.term), a.ty, binds, refs)
+        # np.allclose(a, b, rtol=…, atol=…) on lists of 3-vectors: |a − b| ≤ atol + rtol·|b| for every coordinate
+        if ast.unparse(f) == "np.allclose" and "np" not in env and len(node.args) == 2 and set(kw) <= {"rtol", "atol"}:
+            a, b = self.ex(node.args[0], env), self.ex(node.args[1], env)
+            rt = self.ex(kw["rtol"], env) if "rtol" in kw else V("?", DECLIT, lit=(1, 5))        # numpy's defaults
+            at = self.ex(kw["atol"], env) if "atol" in kw else V("?", DECLIT, lit=(1, 8))
+            if OPAQUE in (a.ty, b.ty, rt.ty, at.ty):
+                return V.opaque()
+            if a.ty != LIST(VEC3) or b.ty != LIST(VEC3):
+                self.fail(node, "np.allclose(%s, %s)" % (a.ty, b.ty))
+            rt, at = self.coerce(node, rt, NUM), self.coerce(node, at, NUM)
+            binds, refs = _join(a, b, rt, at)
+            r = self.rebind("(Py.allclose? %s %s %s %s)" % (a.term, b.term, rt.term, at.term), BOOL, refs)
+            return V(r.term, BOOL, binds + r.binds, r.refs)
+        # np.linalg.inv of a 3x3 array: adjugate / determinant (numpy raises for a singular matrix: not modelled)
+        if ast.unparse(f) == "np.linalg.inv" and "np" not in env and len(node.args) == 1 and not kw:
+            m = self.ex(node.args[0], env)
+            if m.ty == OPAQUE:
+                return m
+            if shape_of(m) != (3, 3):
+                self.fail(node, "np.linalg.inv of shape %s" % (shape_of(m),))
+            e = [[self.coerce(node, m.items[i].items[j], NUM).term for j in range(3)] for i in range(3)]
+            refs = set(m.refs)
+
+            def minor(i, j):
+                r = [x for x in range(3) if x != i]
+                c = [x for x in range(3) if x != j]
+                return "((%s * %s) - (%s * %s))" % (e[r[0]][c[0]], e[r[1]][c[1]], e[r[0]][c[1]], e[r[1]][c[0]])
+            det = "(((%s * %s) - (%s * %s)) + (%s * %s))" % (e[0][0], minor(0, 0), e[0][1], minor(0, 1), e[0][2], minor(0, 2))
+
+            def entry(i, j):          # inverse[i][j] = cofactor(j, i) / det
+                cof = minor(j, i) if (i + j) % 2 == 0 else "(-%s)" % minor(j, i)
+                return V("(%s / %s)" % (cof, det), NUM, (), refs)
+            r = self.mkstatic([self.mkstatic([entry(i, j) for j in range(3)]) for i in range(3)])
+            r.binds = m.binds + r.binds
+            return r
+        # a.dot(b) on static arrays
+        if isinstance(f, ast.Attribute) and f.attr == "dot" and len(node.args) == 1 and not kw:
+            a = self.ex(f.value, env)
+            b = self.ex(node.args[0], env) if a.ty != OPAQUE else a
+            if OPAQUE in (a.ty, b.ty):
+                return V.opaque()
+            if a.np and a.items is not None and b.items is not None:
+                sa, sb = shape_of(a), shape_of(b)
+
+                def op(o, x, y):
+                    return self.binop_scalar(ast.BinOp(left=node, op=o, right=node, lineno=node.lineno, col_offset=node.col_offset), x, y)
+
+                def sump(pairs):
+                    acc = None
+                    for x, y in pairs:
+                        q = op(ast.Mult(), x, y)
+                        acc = q if acc is None else op(ast.Add(), acc, q)
+                    return acc
+                if len(sa) == 1 and len(sb) == 2 and sa[0] == sb[0]:        # row vector times matrix
+                    r = self.mkstatic([sump([(a.items[i], b.items[i].items[j]) for i in range(sa[0])]) for j in range(sb[1])])
+                elif len(sa) == 2 and len(sb) == 1 and sa[1] == sb[0]:      # matrix times vector
+                    r = self.mkstatic([sump(list(zip(row.items, b.items))) for row in a.items])
+                else:
+                    self.fail(node, "dot of shapes %s and %s" % (sa, sb))
+                r.binds = a.binds + b.binds + r.binds
+                return r
         # other numpy functions
         if isinstance(f, ast.Attribute) and isinstance(f.value, ast.Name) and f.value.id == "np" and "np" not in env:
             r = self.np_call(node, f.attr, env, kw)
@@ -1215,12 +1304,12 @@ class Fn:
             r = self.mkstatic([dot(row) for row in a.items])
             r.binds = a.binds + b.binds + r.binds
             return r
-        if name == "ceil" and len(args) == 1 and not kw:
+        if name in ("ceil", "floor") and len(args) == 1 and not kw:
             a = args[0]
 
             def ceil1(x):
                 x = self.coerce(node, x, NUM)
-                return V("(Py.ceil %s)" % x.term, INT, x.binds, x.refs)
+                return V("(Py.%s %s)" % (name, x.term), INT, x.binds, x.refs)
             if a.items is not None:
                 r = self.mkstatic([ceil1(x) if x.items is None else self.mkstatic([ceil1(y) for y in x.items]) for x in a.items])
                 r.binds = a.binds + r.binds
@@ -1283,6 +1372,12 @@ class Fn:
                 for n in ast.walk(s):
                     if isinstance(n, ast.Name) and n.id in e2 and n.id in self.locals_assigned:
                         e2[n.id] = V.opaque()
+                    if isinstance(n, ast.Attribute) and isinstance(n.ctx, (ast.Store, ast.Del)) and isinstance(n.value, ast.Name):
+                        # an attribute of an object is assigned: what the translation knows about that object
+                        # (its attributes, its length) is no longer valid
+                        for key in list(e2):
+                            if key.startswith(n.value.id + "."):
+                                e2[key] = V.opaque()
                 return self.block(rest, e2, conts, mode)
         try:
             return self.stmt(s, rest, env, conts, mode)
@@ -1483,8 +1578,8 @@ class Fn:
                 for n in names:
                     if n in self.pynames:
                         self.fail(s, "local name %s clashes with the element names of %s" % (n, x))
-                e2[x] = V("[%s]" % ", ".join(names), v.ty, (), set(names),
-                          items=[V(n, it.ty, (), {n}, it.items, it.lit) for n, it in zip(names, v.items)])
+                e2[x] = V("[%s]" % ", ".join(names), v.ty, (), set(names), np=v.np,
+                          items=[V(n, it.ty, (), {n}, it.items, it.lit, np=it.np) for n, it in zip(names, v.items)])
                 ir = self.block(rest, e2, conts, mode)
                 for n, it in reversed(list(zip(names, v.items))):
                     ir = ("let", n, it, ir)
@@ -2004,7 +2099,7 @@ class Fn:
                 params = [(n, (ty if n == self.lname(name) else t)) for n, t in params]
             if cfg.get("inputs") is not None:
                 # the fragment is translated for GIVEN values of these locals: the statements before it are not read
-                body_stmts = body_stmts[-(2 if cfg["fragment"][-1][0] == "stmt" else 1):]
+                body_stmts = body_stmts[-(cfg.get("keep_last", 0) + (2 if cfg["fragment"][-1][0] == "stmt" else 1)):]
                 for name, ty in cfg["inputs"].items():
                     env[name] = static_param(self.lname(name), ty)
                     params.append((self.lname(name), ty))
@@ -2192,6 +2287,34 @@ FUNCTIONS += [
          doc=" (FRAGMENT: the ElementPath pattern of the bond lookup)"),
     dict(file="mofun/mofun.py", py="uc_neighbor_offsets", lean="ucNeighborOffsets", params=[("uc_vectors", MAT3)], ret=LIST(VEC3),
          doc="; `np.meshgrid(…).T.reshape(-1, 1, 3)` and `np.matmul(uc_vectors.T, mult[0])` are expanded over the 27 multipliers"),
+    dict(file="mofun/mofun.py", py="find_pattern_in_structure", lean="findUcAtomsInMatch", slice=True, partial=True, decorators="any",
+         fragment=[("for", "enumerate(starting_atoms)"), ("for", "range(1, len(pattern))"), ("for", "last_match_index_tuples"),
+                   ("assign", "uc_atoms_in_match")],
+         params=[], inputs={"near_indices": LIST(NAT), "match": LIST(NAT)}, abstractions={"len(structure)": ("structure_len", NAT)},
+         ret=SET(INT), doc=" (FRAGMENT: the unit-cell atoms a partial match already uses; `none` = IndexError / ZeroDivisionError)"),
+    dict(file="mofun/mofun.py", py="find_pattern_in_structure", lean="findCandidateOk", slice=True, partial=True, decorators="any",
+         fragment=[("for", "enumerate(starting_atoms)"), ("for", "range(1, len(pattern))"), ("for", "last_match_index_tuples"),
+                   ("for", "nearby_atom_indices"), ("if", "uc_atoms_in_match"), "test"],
+         params=[], inputs={"near_types": LIST(STR), "pattern_elements": LIST(STR), "near_indices": LIST(NAT), "i": NAT,
+                            "atom_idx": NAT, "uc_atoms_in_match": SET(INT)},
+         abstractions={"len(structure)": ("structure_len", NAT)}, ret=BOOL,
+         doc=" (FRAGMENT: may this nearby atom extend the partial match: right element, and not an image of a unit-cell atom "
+             "the match already uses)"),
+    dict(file="mofun/mofun.py", py="find_pattern_in_structure", lean="findFinalCheck", slice=True, partial=True, decorators="any",
+         fragment=[("for", "grouped_tuples.items()"), ("for", "enumerate(match_tuples)"), ("if", "np.allclose"), "test"],
+         params=[("atol", NUM)], inputs={"atom_positions": LIST(VEC3)},
+         abstractions={"chk_pattern.positions": ("chk_pattern_positions", LIST(VEC3))}, ret=BOOL,
+         doc=" (FRAGMENT: the final re-check of a candidate, `np.allclose(…, rtol=…, atol=…)` with numpy's defaults for a "
+             "missing keyword; `none` = ValueError)"),
+    dict(file="mofun/mofun.py", py="_get_positions_from_all_adjacent_unit_cells", lean="nearCellsAway", slice=True,
+         fragment=[("if", "len(home_positions) > 0"), "body", ("assign", "cells_away")], params=[],
+         inputs={"home_positions": VEC3, "cell": MAT3}, ret=TUP(INT, INT, INT),
+         doc=" (FRAGMENT for ONE atom: how many whole cells it is away from the home cell, "
+             "`np.floor(home_positions.dot(np.linalg.inv(cell)) + 1e-9)`; the inverse is expanded as adjugate / determinant)"),
+    dict(file="mofun/mofun.py", py="_get_positions_from_all_adjacent_unit_cells", lean="nearHomePosition", slice=True,
+         fragment=[("if", "len(home_positions) > 0"), "body", ("stmt", "cells_away.dot(cell) then home_positions")], params=[],
+         inputs={"home_positions": VEC3, "cell": MAT3}, keep_last=1, ret=VEC3,
+         doc=" (FRAGMENT for ONE atom: its image inside the cell, `home_positions - cells_away.dot(cell)`)"),
     dict(file="mofun/atoms.py", cls="Atoms", py="load_p1_cif", lean="cifChargeReader", slice=True, decorators=["classmethod"],
          fragment=[("if", "_atom_site_charge"), "body", ("assign", "charges"), ("eltcallee", None)], params=[], attrs={}, inputs={}, ret=STR,
          doc=" (FRAGMENT: the name of the function that reads one entry of the charge column)"),
@@ -2344,6 +2467,16 @@ def listRepeat {α} (xs : List α) (n : Int) : List α := (List.replicate n.toNa
 
 /-- `np.ceil(x)` as an integer -/
 def ceil (x : Rat) : Int := Rat.ceil x
+/-- `np.floor(x)` as an integer -/
+def floor (x : Rat) : Int := Rat.floor x
+
+/-- one coordinate of `np.allclose`: `|a − b| ≤ atol + rtol·|b|` -/
+def close1 (a b rtol atol : Rat) : Bool := decide (abs (a - b) ≤ atol + rtol * abs b)
+/-- `np.allclose(a, b, rtol=…, atol=…)` on two lists of points; `none` = ValueError (shapes that cannot be broadcast) -/
+def allclose? (a b : List Vec3) (rtol atol : Rat) : Option Bool :=
+  if a.length = b.length then
+    some ((a.zip b).all (fun p => close1 p.1.x p.2.x rtol atol && close1 p.1.y p.2.y rtol atol && close1 p.1.z p.2.z rtol atol))
+  else none
 
 /-- `d[k] = v` on an insertion-ordered dict: an existing key keeps its position and takes the new value -/
 def dictInsert {κ β} [DecidableEq κ] : List (κ × β) → κ → β → List (κ × β)
